@@ -275,6 +275,12 @@ def worker(prop, tier, seed, shard, nshards, outdir, t_end):
         from . import libstate
         libstate.check_repo()
         mod = load(prop)
+        # everything imported so far is permanent: keep it out of the
+        # collector's way so that the explicit gc.collect() calls of the
+        # disk-handle discipline (R8b) stay cheap
+        import gc
+        gc.collect()
+        gc.freeze()
         ctx = Ctx(mod, prop, st, jpath)
         budget = mod.BUDGET[tier]
         pinned = []
